@@ -281,3 +281,48 @@ func VerifC10_BindingPool() {
 	VerifC09_BindingPool()
 	verif.Cover("binding")
 }
+
+// VerifC09_BindingPoolShutdown: the binding pool holding one connection (with or without a
+// request in flight) is shut down (what the cluster manager does with every pool of a
+// removed host or at graceful shutdown) or closed. The call comes back - it does not block
+// on the pool's own lock -, afterwards the pool lists no connection that is closed, and
+// after Close the connection is closed and accounted for.
+func VerifC09_BindingPoolShutdown() {
+	xprotocol.RegisterXProtocolAction(NewConnPool, NewStreamFactory, func(api.XProtocolCodec) {})
+	_ = xprotocol.RegisterXProtocolCodec(&bolt.XCodec{})
+	info := &zzPInfo{rm: cluster.NewResourceManager(v2.CircuitBreakers{}), st: zzPClusterStats()}
+	host := &zzLHost{zzPHost: zzPHost{info: info, hs: zzPHostStats()}}
+	base := &connpool{protocol: bolt.ProtocolName, codec: zzNoHBCodec{&bolt.XCodec{}}}
+	base.host.Store(types.Host(host))
+	pool := NewPoolBinding(base).(*poolBinding)
+	down := &zzBDown{id: 7}
+	ctx := zzBCtx(down)
+	_, sender, _ := pool.NewStream(ctx, &zzLRecv{})
+	verif.Assert(sender != nil && len(host.conns) == 1, "the pool did not open a connection for the first request")
+	if sender == nil {
+		return
+	}
+	if verif.Choose("request_in_flight", 2) == 0 {
+		sender.GetStream().ResetStream(types.StreamLocalReset)
+	}
+	closing := verif.Choose("close_instead_of_shutdown", 2) == 1
+	verif.MustFinish(200000, "shutting down (or closing) a binding pool that holds a connection never returns: it blocks on the pool's own lock")
+	if closing {
+		pool.Close()
+	} else {
+		pool.Shutdown()
+	}
+	verif.Finished()
+	open := 0
+	for _, c := range host.conns {
+		if !c.closed {
+			open++
+		}
+	}
+	verif.Assert(len(pool.idleClients) <= open, "the pool lists a connection that is closed")
+	if closing {
+		verif.Assert(host.conns[0].closed, "Close left the pool's connection open")
+		verif.Assert(host.hs.UpstreamConnectionActive.Count() == 0, "UpstreamConnectionActive differs from the number of open connections")
+	}
+	verif.Cover("end")
+}
